@@ -168,7 +168,7 @@ func firstLines(s string, n int) string {
 }
 
 func sanitizeFile(s string) string {
-	r := strings.NewReplacer("/", "__", "(", "", ")", "", "*", "", " ", "_", "$", "_", "#", "_", ":", "_", ",", "_", "@", "_at_")
+	r := strings.NewReplacer("/", "__", "(", "", ")", "", "*", "", " ", "_", "$", "_", "#", "_", ":", "_", ",", "_", "@", "_at_", "=", "-eq-", "[", "_", "]", "_")
 	return r.Replace(s)
 }
 
